@@ -485,12 +485,69 @@ GHOST_OK = re.compile(r'^\s*(proof\s*\{|let ghost|let tracked|assert\b|assert\(|
 
 
 def lint_ghost(lines, where):
+    """Integrity rule for body insertions: the inserted text must be a sequence of GHOST statements only -
+    `proof { .. }`, `let ghost ..;`, `let tracked ..;`, `assert ..;` / `assert(..) by { .. }`, `broadcast use ..;`, `reveal(..);` -
+    checked statement by statement on the token stream (not only on the first line), so no executable token can be spliced in."""
     joined = '\n'.join(lines)
     if re.search(r'\b(assume|admit)\s*\(', joined):
         raise ExtractError('overlay for %s contains assume/admit' % where)
     first = next((l for l in lines if l.strip()), '')
     if not GHOST_OK.match(first):
         raise ExtractError('overlay body insertion for %s does not start with ghost code: %s' % (where, first.strip()))
+    try:
+        sig = sig_tokens(lex(joined))
+    except rustlex.LexError as e:
+        raise ExtractError('overlay for %s does not lex: %s' % (where, e))
+    i = 0
+    n = len(sig)
+    while i < n:
+        t = sig[i].text
+        if t == 'proof' and i + 1 < n and sig[i + 1].text == '{':
+            i = match_close(sig, i + 1) + 1
+            continue
+        ok = (t == 'let' and i + 1 < n and sig[i + 1].text in ('ghost', 'tracked')) or t in ('assert', 'reveal', 'reveal_with_fuel') \
+            or (t == 'broadcast' and i + 1 < n and sig[i + 1].text == 'use')
+        if not ok:
+            raise ExtractError('overlay body insertion for %s contains a non-ghost statement starting at `%s`' % (where, ' '.join(x.text for x in sig[i:i + 6])))
+        # skip to the terminating ';' at depth 0 (or a trailing `by { .. }` block without ';')
+        while i < n and sig[i].text != ';':
+            if sig[i].text in ('(', '[', '{'):
+                j = match_close(sig, i)
+                if sig[i].text == '{' and (j + 1 >= n or sig[j + 1].text != ';') and t == 'assert':
+                    i = j
+                    break
+                i = j
+            i += 1
+        i += 1
+
+
+SPEC_HEAD = re.compile(r'^\s*(requires|ensures|decreases|recommends|invariant|invariant_except_break|opens_invariants|no_unwind|returns|via)\b')
+
+
+def lint_clauses(lines, where, what):
+    """Integrity rule for header insertions (function spec, loop spec): first token is a clause keyword and braces are balanced, so the
+    insertion cannot open the body."""
+    txt = re.sub(r'//[^\n]*', '', '\n'.join(lines))
+    if not txt.strip():
+        return
+    if re.search(r'\b(assume|admit)\s*\(', txt):
+        raise ExtractError('%s of %s contains assume/admit' % (what, where))
+    if not SPEC_HEAD.match(txt.strip()):
+        raise ExtractError('%s of %s does not start with a clause keyword: %s' % (what, where, txt.strip()[:60]))
+    try:
+        sig = sig_tokens(lex(txt))
+    except rustlex.LexError as e:
+        raise ExtractError('%s of %s does not lex: %s' % (what, where, e))
+    depth = 0
+    for t in sig:
+        if t.text in ('(', '[', '{'):
+            depth += 1
+        elif t.text in (')', ']', '}'):
+            depth -= 1
+            if depth < 0:
+                raise ExtractError('%s of %s closes a bracket it did not open' % (what, where))
+    if depth != 0:
+        raise ExtractError('%s of %s has unbalanced brackets' % (what, where))
 
 
 def splice_function(src_text, spec, log, where, degraded=False):
@@ -602,6 +659,7 @@ def _splice_after_rules(text, src_text, spec, log, where, degraded=False):
         tend = arrow.end + len(text[arrow.end:end].rstrip())
         inserts.append((tend, 0, ')', 'overlay:ret'))
     if spec['spec']:
+        lint_clauses(spec['spec'], where, 'contract')
         add(body_open.start, spec['spec'], 'overlay:spec')
     if spec.get('top'):
         lint_ghost(spec['top'], where)
@@ -614,6 +672,7 @@ def _splice_after_rules(text, src_text, spec, log, where, degraded=False):
             raise ExtractError('%s %d: no such loop in %s' % (kind, kk, where))
         kw, bo, bc = loops[kk - 1]
         if kind == 'loop':
+            lint_clauses(lines, where, 'loop %d clauses' % kk)
             add(sig[bo].start, lines, 'overlay:loop%d' % kk)
         elif kind == 'enter':
             lint_ghost(lines, where)
@@ -680,6 +739,8 @@ def _splice_after_rules(text, src_text, spec, log, where, degraded=False):
             pos = off
         segs.append((ins, origin))
     segs.append((text[pos:], 'repo'))
+    if ''.join(seg for seg, origin in segs if origin == 'repo') != text:
+        raise ExtractError('integrity: the repository-origin segments of %s do not reassemble to the extracted text' % where)
     if spec.get('mode') == 'external_body':
         segs.insert(0, ('#[verifier::external_body]\n', 'overlay:external_body'))
     # to lines with origin: a line's origin is 'repo' if it has any repo char that is non-ws
@@ -962,6 +1023,7 @@ def build_unit(template, repo, out_rs, out_map):
                           'out_first': first_out, 'out_last': len(out), 'mode': item['mode'],
                           'clauses': count_clauses(item), 'degraded': degraded if item['kind'] == 'fn' else None,
                           'has_loops': bool(find_loops(rewritten)[1]) if item['kind'] == 'fn' else False})
+    out = auto_consts(out, functions, repo, log)
     with open(out_rs, 'w') as f:
         f.write('\n'.join(l for l, _ in out) + '\n')
     m = {'template': template, 'functions': functions,
@@ -970,6 +1032,50 @@ def build_unit(template, repo, out_rs, out_map):
     with open(out_map, 'w') as f:
         json.dump(m, f)
     return m
+
+
+def auto_consts(out, functions, repo, log):
+    """A top-level `const NAME` of a source file that an extracted function of the same file mentions, and that the unit does not define,
+    is copied verbatim (R1 only) in front of the first extracted item. Keeps a unit decidable when a change starts using a constant the
+    template's author had no reason to list. Logged as rule AUTO-CONST."""
+    for _round in range(4):
+        text = '\n'.join(l for l, _ in out)
+        defined = set(re.findall(r'\b(?:const|static)\s+([A-Z][A-Z0-9_]*)\b', text))
+        used_by_file = {}
+        for l, origin in out:
+            if origin.startswith('repo:'):
+                code = re.sub(r'"(?:[^"\\]|\\.)*"', '""', l.split('//')[0])
+                for nm in re.findall(r'(?<![:\w])([A-Z][A-Z0-9_]{2,})\b(?!\s*::)', code):
+                    used_by_file.setdefault(origin[5:], set()).add(nm)
+        add = []
+        for rel, names in used_by_file.items():
+            path = os.path.join(repo, rel)
+            if path not in _item_cache:
+                if not os.path.exists(path):
+                    continue
+                src0 = open(path).read()
+                _item_cache[path] = (src0, rustlex.find_items(src0))
+            src0, items = _item_cache[path]
+            for it in items:
+                if it.kind == 'const' and it.owner == '' and it.name in names and it.name not in defined:
+                    txt = apply_core_rules(src0[it.start:it.end], log, '%s::%s' % (rel, it.name), keep_pub=False)
+                    add.append((rel, it.name, txt))
+                    defined.add(it.name)
+        if not add:
+            break
+        first = next((i for i, (_, o) in enumerate(out) if o.startswith('repo:')), len(out))
+        ins = []
+        for rel, nm, txt in add:
+            log.append(('AUTO-CONST', '%s::%s' % (rel, nm), 'constant used by an extracted function and not listed in the unit: copied automatically'))
+            for l in txt.split('\n'):
+                ins.append((l, 'repo:%s' % rel))
+        out = out[:first] + ins + out[first:]
+        # shift recorded line numbers
+        for f in functions:
+            if f['out_first'] > first:
+                f['out_first'] += len(ins)
+                f['out_last'] += len(ins)
+    return out
 
 
 def count_clauses(item):
